@@ -264,9 +264,10 @@ def run_property(prop: str, rule_fn: Callable[[Ctx], None], tier: str, seed: int
             "known_findings_reported": [k.get("id") for _f, k in knownhits],
             "analysis_errors": errors,
             "exhaustive": False,
-            # what the normal form did on this tree (sa/flatten.py, sa/records.py): rewrites are semantics-preserving
+            # what the normal form did on this tree (sa/flatten.py, sa/idioms.py, sa/records.py): rewrites are semantics-preserving
             "normal_form": {
                 "records_desugared": getattr(repo, "records", {}),
+                "idioms": getattr(repo, "idioms", {}),
                 "rewrites": sorted({f"{a}: {b}" for (a, b) in repo.__dict__.get("inlined_helpers", [])})[:60],
                 "helpers_absorbed": repo.__dict__.get("absorbed_helpers", []),
                 "census": "sa/known_funcs.py (317 function qualnames of the tree the rules were confirmed on)",
